@@ -29,7 +29,7 @@ CHECKS = {
          "Trusted: the canonical dump covers everything the passes read (states with equal dumps are merged). Canonical hash-order schedule only.",
          "DESIGN.md 3 C12"),
  "C01": ("bounded-exhaustive program enumeration; each program analysed by the real pipeline and executed by a reference RV32IM interpreter with an activation monitor from every initial state; every claim evaluated on every step",
-         "Explicit-state exploration of (program, initial state, step): every program of the kernel family (single-transfer: each of ~1650 instructions after every state-setting prefix of length <= 1 quick / <= 2 thorough; all sequences over a 25-symbol alphabet up to length 3/4; all control-flow sequences over 12/14 symbols up to length 4/6; 10 loop/diamond/irreducible/recursion/multi-return skeletons; each as main program and as called function) is analysed by the real Manager::gen_full_cfg and executed by the harness's interpreter from 8/32 initial states to exit or a 256-step horizon; at every arrival/departure every Constant / Address / entry-value+k claim on registers and stack slots is compared with the machine. The model (interpreter) trace is bound 1:1 to the implementation's CFG nodes.",
+         "Explicit-state exploration of (program, initial state, step): every program of the kernel family (single-transfer: each of ~1650 instructions after every state-setting prefix of length <= 1 quick / <= 2 thorough; all sequences over a 25-symbol alphabet up to length 3/4; all control-flow sequences over 12/14 symbols up to length 4/5; 10 loop/diamond/irreducible/recursion/multi-return skeletons; each as main program and as called function) is analysed by the real Manager::gen_full_cfg and executed by the harness's interpreter from 8/32 initial states to exit or a 256-step horizon; at every arrival/departure every Constant / Address / entry-value+k claim on registers and stack slots is compared with the machine. The model (interpreter) trace is bound 1:1 to the implementation's CFG nodes.",
          "Trusted: the reference interpreter (two cross-checked ALUs) and the activation monitor that stops checking where an execution leaves the property's supported subset. Programs longer than the bounds, immediates outside the alphabets and the un-named claim kinds (memory-at-register, CSR) are not covered.",
          "DESIGN.md 3 C01"),
  "C07": ("bounded-exhaustive enumeration of files over a line alphabet; coverage oracle by independent locator, containment oracle differential (file vs file with the bad line deleted)",
